@@ -22,11 +22,14 @@ def run(ctx):
         h = ctx.build_harness("h_solver")
         ctx.pipe([h, "options", "250"], "options", label="option-tuples")
         ctx.pipe([h, "solve", "30", "4"], "trace", label="solves-finite")
+        # decision table of setup() (GMGModel/Setup.lean) and "solve touches only what setup provided" on real traces
+        ctx.pipe([h, "setup", "40"], "setup", label="setup-provides")
     else:
         h = ctx.build_harness("h_solver", variant="asan-ndebug")
         env = {"ASAN_OPTIONS": "detect_leaks=0"}
         ctx.pipe([h, "options", "1500"], "options", env=env, label="option-tuples-asan-ubsan")
         ctx.pipe([h, "solve", "60", "4"], "trace", env=env, label="solves-asan-ubsan")
+        ctx.pipe([h, "setup", "150"], "setup", env=env, label="setup-provides-asan-ubsan")
         ho = ctx.build_harness("h_ops", variant="asan-ndebug")
         ctx.pipe([ho, "residual", "10", "17", "32"], "residual", env=env, label="operators-asan-ubsan")
         ctx.pipe([ho, "smooth", "20", "13", "16"], "smooth", env=env, label="smoothers-asan-ubsan")
